@@ -6,9 +6,9 @@ import tlvschema as T
 import strict_tlv as S
 
 PROP = 'C02'
-DRIVER = 'C01'        # the packet model driver is shared with C01
+DRIVER = 'C02'        # lean/NdnModel/Drv/C02.lean: C01's packet protocol plus the signers / checkers inside the model
 TITLE = 'Signatures and parameter digests cover the specified bytes; tampering detected'
-LEAN_TARGETS = ['NdnProofs.Props.C02', 'NdnGen.C01']
+LEAN_TARGETS = ['NdnProofs.Props.C02', 'NdnProofs.Props.C02Sign', 'NdnProofs.Props.C02Vectors', 'NdnGen.C01']
 THEOREMS = [
     'Ndn.C02.sign_input_is_signed_portion_data', 'Ndn.C02.sign_input_is_signed_portion_interest',
     'Ndn.C02.digest_covers_params_to_end', 'Ndn.C02.covered_end_is_sigvalue_offset',
@@ -16,11 +16,27 @@ THEOREMS = [
     'Ndn.C02.own_interest_passes_digest_check', 'Ndn.C02.own_interest_verifies',
     'Ndn.C02.parsed_digest_cover_params_interest', 'Ndn.C02.tamper_rejected', 'Ndn.C02.verify_own',
     'Ndn.C02.params_digest_iff', 'Ndn.Packet.interest_items', 'Ndn.Gen.C01.schemas_match',
+    # ranges for an Interest whose name already carries a caller-supplied digest placeholder (any position)
+    'Ndn.C02.parsed_cover_is_signed_portion_interest_placeholder', 'Ndn.C02.own_interest_placeholder_passes_digest_check',
+    'Ndn.C02.own_interest_placeholder_verifies', 'Ndn.C02.parsed_digest_cover_params_interest_placeholder',
+    # DigestSha256 / HMAC-SHA256 signers and checkers inside the model (Props/C02Sign.lean)
+    'Ndn.C02.digest_checker_iff', 'Ndn.C02.digest_checker_other_type', 'Ndn.C02.verify_hmac_iff', 'Ndn.C02.hmac_checker_iff',
+    'Ndn.C02.union_checker_iff', 'Ndn.C02.hmac_scheme_correct', 'Ndn.C02.digest_scheme_correct',
+    'Ndn.C02.digest_checker_accepts_signer', 'Ndn.C02.hmac_checker_accepts_signer',
+    'Ndn.C02.digest_tamper_needs_collision', 'Ndn.C02.digest_tamper_value_rejected',
+    'Ndn.C02.hmac_tamper_needs_collision', 'Ndn.C02.hmac_tamper_value_rejected', 'Ndn.Hmac.hmac_collision',
+    'Ndn.C02.sign_data_parse', 'Ndn.C02.sign_interest_parse', 'Ndn.C02.shape_appended', 'Ndn.C02.shape_placeholder',
+    'Ndn.C02.digest_signed_data_accepted', 'Ndn.C02.hmac_signed_data_accepted',
+    'Ndn.C02.digest_signed_interest_accepted', 'Ndn.C02.digest_signed_interest_placeholder_accepted',
+    'Ndn.C02.hmac_signed_interest_accepted', 'Ndn.C02.hmac_signed_interest_placeholder_accepted',
+    'Ndn.Sha256.sha256_length', 'Ndn.C02.digest_signed_data_accepted_sha256', 'Ndn.C02.hmac_signed_data_accepted_sha256',
+    'Ndn.C02.digest_signed_interest_accepted_sha256', 'Ndn.C02.hmac_signed_interest_accepted_sha256',
 ]
 PARTIAL = {}
 TRUSTED = [
-    'C02: the signature scheme is ideal - `correct` (verify accepts what sign produced) and `unforgeable` (verify accepts only what sign produced) are HYPOTHESES of verify_own / tamper_rejected, never axioms; real cryptography (pycryptodomex) is exercised by the correspondence only',
-    'C02: SHA-256 is an opaque function in the theorems (params_digest_iff holds for every function H)',
+    'C02: for the public-key schemes (ECDSA, RSA, Ed25519) the signature scheme is ideal - `correct` (verify accepts what sign produced) and `unforgeable` (verify accepts only what sign produced) are HYPOTHESES of verify_own / tamper_rejected, never axioms; real cryptography (pycryptodomex) is exercised by the correspondence only',
+    'C02: DigestSha256 and HMAC-SHA256 need no such hypothesis: signer and checker are inside the model, acceptance of a tampered copy is stated as a collision of the hash function. SHA-256 is a parameter H in those theorems (the round-trip theorems only need |H x| = 32, proved for the executable Lean SHA-256); that the executable Lean SHA-256 / HMAC are THE SHA-256 / HMAC is tied by RFC 4231 / FIPS 180-4 vectors evaluated in the kernel and by comparison with hashlib, hmac and pycryptodomex on every generated case',
+    'C02: HMAC.verify of pycryptodomex compares through a randomly keyed BLAKE2s (constant-time idiom); the model takes it as byte equality',
 ]
 RULE = ('signed Data / Interest packets as in C01 with every shipped signer and its matching verifier; per packet: the bytes '
         'given to the signer, the ranges parse_* reports and the signed portion computed by an independent strict reader '
@@ -33,6 +49,13 @@ RULE = ('signed Data / Interest packets as in C01 with every shipped signer and 
         'prefix / emptied / extended, element appended after it). Acceptance is judged for verify_* and for the shipped '
         'known-key checker classes (from_key). A tampered copy whose signed portion or signature '
         'value differs must be rejected; params_sha256_checker must agree with SHA-256 of ApplicationParameters..end. '
+        'On the made packet and on every tampered copy the verdicts of the real sha256_digest_checker, verify_hmac, '
+        'HmacChecker.from_key, union_checker(sha256_digest_checker, HmacChecker) and params_sha256_checker are compared with '
+        'the verdicts of their Lean models. A second stream (60 quick / 700 thorough) builds packets with the REAL '
+        'DigestSha256Signer / HmacSha256Signer objects - HMAC keys of 0, 1, 15, 32, 63, 64, 65, 100, 200 bytes, KeyLocator names '
+        'equal to / longer than / unrelated to the checker\'s key name, wrong checker keys - and compares the whole wire with '
+        'the Lean model that contains the signer (make_* with the signer inside the model), the checker verdicts as above, '
+        'and HMAC-SHA256 / SHA-256 of the model with hmac, hashlib and pycryptodomex on the covered bytes and on random messages. '
         'non-trivial = packet signed and at least one tampered copy still parses; distinct = distinct generator inputs')
 LEVEL_TEXT = ('Lean 4 theorems about the packet model: the bytes handed to the signer are exactly the specified signed portion of '
               'the FINAL wire (Data: Name..SignatureInfo; Interest: name components except the digest, then ApplicationParameters '
@@ -42,13 +65,22 @@ LEVEL_TEXT = ('Lean 4 theorems about the packet model: the bytes handed to the s
               'what the signer wrote, digest-covered range = ApplicationParameters..end, digest value = H of it, so '
               'params_sha256_checker accepts; also for unsigned Interests with ApplicationParameters); '
               'under the ideal-signature hypotheses the matching verifier accepts the packet and rejects every parsed packet '
-              'whose portion or signature value differs; the digest check holds iff component = H(portion). Real signers and '
+              'whose portion or signature value differs; the digest check holds iff component = H(portion). DigestSha256 and '
+              'HMAC-SHA256 signers and checkers are inside the model: make, parse, check = accept as one theorem; verdict iff value = '
+              'hash / HMAC of the covered bytes; tampering accepted only on a hash collision. Real signers and '
               'verifiers are exercised by the correspondence: recorded signer input = parser ranges = independent strict reading, '
               'and tampered copies are rejected.')
-LEVEL_NOTE = ('Cryptography is an ideal-scheme hypothesis. The parser-range theorems are proved for signed Data and for Interests '
-              'to which make_interest appends the digest component; for Interests whose name already carries a caller-supplied '
-              'digest component the reported ranges are compared on every generated packet (model, code and strict reader).')
-TECHNIQUE = 'Lean 4 proof (byte-range algebra over the shrink theorem; ideal-signature hypotheses) + differential and tamper testing'
+LEVEL_NOTE = ('Public-key cryptography (ECDSA, RSA, Ed25519) is an ideal-scheme hypothesis; DigestSha256 and HMAC-SHA256 are not: '
+              'their signers and checkers (DigestSha256Signer, HmacSha256Signer, sha256_digest_checker, params_sha256_checker, '
+              'union_checker, verify_hmac, HmacChecker.from_key) are modelled, "make_data / make_interest with the signer, then parse, '
+              'then the matching checker(s) = accept" is one theorem each (for every key; also with the executable Lean SHA-256, no '
+              'hypothesis left), a checker accepts covered bytes c and value s iff s = SHA-256(c) resp. HMAC(k, c), and a tampered copy '
+              'that keeps the signature value is accepted only on a SHA-256 collision (sha256_digest_checker lets other signature types '
+              'through, as the code does). The parser-range theorems are proved for signed Data and for Interests with the digest '
+              'component appended by make_interest OR supplied by the caller as a 34-byte placeholder at any position of the name '
+              '(signed and unsigned-with-parameters).')
+TECHNIQUE = ('Lean 4 proof (byte-range algebra over the shrink theorem; DigestSha256 / HMAC-SHA256 signers and checkers inside the model, '
+             'tampering = hash collision; ideal-signature hypotheses for the public-key schemes) + differential and tamper testing')
 DESIGN_REF = 'DESIGN.md section 7, C02'
 
 
@@ -56,6 +88,7 @@ DESIGN_REF = 'DESIGN.md section 7, C02'
 def cases(rng, tier):
     n = 200 if tier == 'quick' else 2500
     k = 10 if tier == 'quick' else 24
+    yield from _sign_cases(rng, tier)
     for _ in range(n):
         c = PK.gen_data_case(rng, tier) if rng.random() < 0.5 else PK.gen_interest_case(rng, tier)
         if c['signer'][0] == 'none' and rng.random() < 0.8:
@@ -205,6 +238,9 @@ def _targeted(wire, kind, r, b, is_data):
 
 
 def shrink(case):
+    if case.get('kind') == 'sign':
+        yield from _sign_shrink(case)
+        return
     t = case['tamper']
     for i in range(len(t)):
         yield dict(case, tamper=t[:i] + t[i + 1:])
@@ -473,12 +509,16 @@ def _digest_check(wire):
 
 
 def run_impl(case):
+    if case.get('kind') == 'sign':
+        return _sign_run(case)
     made = PK.make_packet(case)
     out = {'made': made, 'copies': []}
     if made['made'][0] != 'ok':
         return out
     wire = bytes.fromhex(made['made'][1])
     form = case.get('parse_form')
+    ckey, ckn = _chk_args(case)
+    out['verdicts'] = _verdicts(case['pkt'], wire, ckey, ckn, form)
     out['parsed'] = PK.parse_packet(case['pkt'], wire, form)
     out['spec'] = _hexspec(spec_portions(case['pkt'], wire))
     out['verify'] = _verify(case, wire)
@@ -504,6 +544,7 @@ def run_impl(case):
              'spec': _hexspec(spec_portions(case['pkt'], w2)), 'verify': _verify(case, w2), 'verify2': v2, 'verify3': v3, 'verify4': v4}
         if case['pkt'] == 'interest':
             c['digest_ok'] = _digest_check(w2)
+        c['verdicts'] = _verdicts(case['pkt'], w2, ckey, ckn, form)
         out['copies'].append(c)
     return out
 
@@ -521,16 +562,24 @@ def _hexspec(s):
 
 # ------------------------------------------------------------------------------------- model
 def model_line(case, impl):
+    if case.get('kind') == 'sign':
+        return _sign_line(case, impl)
     l = PK.model_make_line(case, impl['made'])
     if l is None or impl['made']['made'][0] != 'ok':
         return l
     op = 'pdata' if case['pkt'] == 'data' else 'pint'
     for c in impl['copies']:
         l += f" ;; {op} {T.hx(bytes.fromhex(c['wire']))}"
+    # the checkers inside the model, on the made packet and on every copy
+    ckey, ckn = _chk_args(case)
+    for w in [impl['made']['made'][1]] + [c['wire'] for c in impl['copies']]:
+        l += ' ;; ' + _chk_q(case['pkt'], bytes.fromhex(w), ckey, ckn)
     return l
 
 
 def model_obs(answer, case, impl):
+    if case.get('kind') == 'sign':
+        return _sign_model_obs(answer, case, impl)
     parts = answer.split(' ;; ')
     made, parsed = PK.parse_model_answer(parts[0])
     o = {'made': made['made']}
@@ -538,9 +587,11 @@ def model_obs(answer, case, impl):
         o['covered'] = made['covered'] if case['signer'][0] != 'none' else None
         o['parsed'] = _pc(parsed, case)
         o['copies'] = []
-        for p in parts[1:]:
+        n = len(impl['copies'])
+        for p in parts[1:1 + n]:
             t = p.split()
             o['copies'].append(_pc(PK.parse_model_parse(t[1:]), case) if t[0] == 'ok' else {'res': 'err', 'err': t[1]})
+        o['verdicts'] = [_model_verdict(p) for p in parts[1 + n:]]
     return o
 
 
@@ -564,9 +615,12 @@ def case_is_interest(case):
 
 
 def impl_obs(impl):
+    if impl.get('kind') == 'sign':
+        return _sign_impl_obs(impl)
     m = impl['made']
     o = {'made': m['made']}
     if m['made'][0] == 'ok':
+        o['verdicts'] = [impl['verdicts']] + [c['verdicts'] for c in impl['copies']]
         o['covered'] = m.get('covered')
         isint = 'digest_ok' in impl
         o['parsed'] = PK.impl_parse_obs(impl['parsed'])
@@ -583,6 +637,8 @@ def impl_obs(impl):
 
 # ------------------------------------------------------------------------------------- oracle
 def oracle(case, impl):
+    if case.get('kind') == 'sign':
+        return _sign_oracle(case, impl)
     m = impl['made']
     if m['made'][0] != 'ok':
         return None            # C01's concern
@@ -663,11 +719,15 @@ def _digest_rule(obs, spec, got):
 
 
 def nontrivial(case, impl):
+    if case.get('kind') == 'sign':
+        return impl['made'][0] == 'ok' and any(c['parsed']['res'] == 'ok' for c in impl['copies'])
     return impl['made']['made'][0] == 'ok' and case['signer'][0] != 'none' and \
         any(c['parsed']['res'] == 'ok' for c in impl['copies'])
 
 
 def tags(case, impl):
+    if case.get('kind') == 'sign':
+        return _sign_tags(case, impl)
     t = ['pkt:' + case['pkt'], 'signer:' + case['signer'][0]]
     for k in ('payload_form', 'key_form', 'obj_form', 'pre', 'parse_form'):
         if case.get(k) is not None:
@@ -685,4 +745,325 @@ def tags(case, impl):
 
 def finding_key(case, impl, why):
     import re
+    if case.get('kind') == 'sign':
+        return ('sign-' + case['pkt'] + ':' + re.sub(r'[^a-zA-Z]+', '-', why).strip('-').lower())[:90]
     return (case['pkt'] + ':' + re.sub(r'[^a-zA-Z]+', '-', why).strip('-').lower())[:90]
+
+
+# ------------------------------------------------------------------------------------- checkers inside the model
+HKEY = b'secret-key-0123'          # the HMAC key pktcommon.make_signer uses
+
+
+def _chk_args(case):
+    """(key, key name components) of the HmacChecker / verify_hmac whose verdicts are compared with the model's"""
+    kn = case.get('key_name')
+    return HKEY, ([b'\x08\x01k', b'\x08\x04hmac'] if kn is None else [bytes.fromhex(c) for c in kn])
+
+
+def _chk_q(kind, wire, key, key_name):
+    kn = ','.join(T.hx(c) for c in key_name) or '.'
+    return f"chk {'data' if kind == 'data' else 'int'} {T.hx(wire)} {T.hx(key)} {kn}"
+
+
+def _verdicts(kind, wire, key, key_name, form=None):
+    """[SignatureType, sha256_digest_checker, verify_hmac(key), HmacChecker.from_key(key_name, key),
+    union_checker(sha256_digest_checker, that HmacChecker), params_sha256_checker] of the REAL objects on the parsed wire
+    (booleans, 'exc:<cls>' when one raises), or 'unparsable'"""
+    from ndn import encoding as enc
+    from ndn.security import validator as v
+    from ndn.security.validator import known_key_validator as kk
+    try:
+        arg = PK.as_form(wire, form)
+        name, _, _, sp = enc.parse_data(arg) if kind == 'data' else enc.parse_interest(arg)
+    except Exception:     # noqa
+        return 'unparsable'
+    si = sp.signature_info
+    out = ['~' if si is None or si.signature_type is None else str(si.signature_type)]
+    try:
+        hc = kk.HmacChecker.from_key(list(key_name), key)
+        un = v.union_checker(v.sha256_digest_checker, hc)
+    except Exception as e:     # noqa
+        return 'exc:' + type(e).__name__
+    for f in (lambda: _drive(v.sha256_digest_checker(name, sp)), lambda: v.verify_hmac(key, sp), lambda: _drive(hc(name, sp)),
+              lambda: _drive(un(name, sp)), lambda: _drive(v.params_sha256_checker(name, sp))):
+        try:
+            out.append(bool(f()))
+        except Exception as e:     # noqa
+            out.append('exc:' + type(e).__name__)
+    return out
+
+
+def _model_verdict(ans):
+    t = ans.split()
+    if t[0] != 'ok':
+        return 'unparsable' if t[0] == 'err' else ans
+    d = dict(x.split('=', 1) for x in t[1:])
+    return [d['T']] + [d[k] == '1' for k in ('DG', 'HV', 'HC', 'UN', 'PC')]
+
+
+# ------------------------------------------------------------------------------------- packets made with the REAL
+# DigestSha256Signer / HmacSha256Signer objects, compared with the model that contains the signer
+KEY_LENS = [0, 1, 15, 32, 63, 64, 65, 100, 200]
+
+
+def _sign_cases(rng, tier):
+    n = 60 if tier == 'quick' else 700
+    k = 6 if tier == 'quick' else 12
+    nh = 0                 # HMAC cases so far: the key lengths are cycled through
+    for i in range(n):
+        b = PK.gen_data_case(rng, 'quick') if rng.random() < 0.45 else PK.gen_interest_case(rng, 'quick')
+        c = {'kind': 'sign', 'pkt': b['pkt'], 'name': b['name'], 'seed': b['seed'], 'signer': ['none']}
+        for key in ('meta', 'content', 'param', 'app'):
+            if key in b:
+                c[key] = b[key]
+        for key in ('content', 'app'):
+            if c.get(key) and c[key] > 1500:
+                c[key] = c[key] % 600
+        _cap_names(c)
+        if rng.random() < 0.35:
+            c['sg'] = ['digest', int(rng.random() < (0.8 if c['pkt'] == 'interest' else 0.2))]
+            key = bytes(rng.getrandbits(8) for _ in range(rng.choice(KEY_LENS)))
+            c['chk'] = [key.hex(), [x.hex() for x in PK.rand_name(rng)][:4]]
+        else:
+            klen = KEY_LENS[nh % len(KEY_LENS)] if (nh // len(KEY_LENS)) % 4 != 3 else rng.randint(0, 140)
+            nh += 1
+            key = bytes(rng.getrandbits(8) for _ in range(klen))
+            kl = [x.hex() for x in PK.rand_name(rng)][:5]
+            if sum(len(x) for x in kl) > 600:
+                kl = kl[:1] if len(kl[0]) < 600 else []
+            c['sg'] = ['hmac', key.hex(), kl]
+            r = rng.random()
+            ckey = key
+            if r < 0.12:
+                # another key: same length with one byte changed, zero-padded to the block size, or the SHA-256 of a long key
+                alt = [bytes([key[0] ^ 1]) + key[1:] if key else b'\x00', key + b'\x00', hashlib.sha256(key).digest(), key[:64]]
+                ckey = rng.choice(alt)
+            r = rng.random()
+            if r < 0.5:
+                ckn = kl[:rng.randint(0, len(kl))]                              # a prefix of the KeyLocator name
+            elif r < 0.8:
+                ckn = list(kl)
+            elif r < 0.9:
+                ckn = kl + [PK.rand_comp(rng).hex()]                            # longer than the KeyLocator name
+            else:
+                ckn = [x.hex() for x in PK.rand_name(rng)][:4]
+            c['chk'] = [ckey.hex(), ckn]
+        c['tamper'] = [[rng.choice(['subst', 'subst', 'subst', 'trunc', 'dup', 'del', 'swap', 'ins', 'len', 'digestcut', 'widen']),
+                        rng.getrandbits(30), rng.getrandbits(8)] for _ in range(k)]
+        c['tamper'] += [[rng.choice(TARGETED), rng.getrandbits(30), rng.getrandbits(8)] for _ in range(k // 2 + 1)]
+        # direct questions about HMAC-SHA256 / SHA-256: random messages around the block boundaries, keys of every class
+        c['raw'] = [[bytes(rng.getrandbits(8) for _ in range(rng.choice(KEY_LENS + [66, 128, 129]))).hex(),
+                     bytes(rng.getrandbits(8) for _ in range(rng.choice([0, 1, 54, 55, 56, 57, 63, 64, 65, 119, 120, 128, 300]))).hex()]
+                    for _ in range(2)]
+        yield c
+
+
+def _sign_shrink(case):
+    t = case['tamper']
+    for i in range(len(t)):
+        yield dict(case, tamper=t[:i] + t[i + 1:])
+    if case['raw']:
+        yield dict(case, raw=case['raw'][:-1])
+    for key in ('content', 'app'):
+        if case.get(key):
+            yield dict(case, **{key: case[key] // 2})
+    if case['name']:
+        yield dict(case, name=case['name'][:-1])
+    if case['sg'][0] == 'hmac' and case['sg'][2]:
+        yield dict(case, sg=['hmac', case['sg'][1], case['sg'][2][:-1]], chk=[case['chk'][0], case['chk'][1][:len(case['sg'][2]) - 1]])
+
+
+def _sign_signer(case):
+    from ndn import security as sec
+    sg = case['sg']
+    if sg[0] == 'digest':
+        return sec.DigestSha256Signer(bool(sg[1]))
+    return sec.HmacSha256Signer([bytes.fromhex(c) for c in sg[2]], bytes.fromhex(sg[1]))
+
+
+def _sign_run(case):
+    from ndn import encoding as enc
+    out = {'kind': 'sign', 'copies': [], 'raw': []}
+    for k, m in case['raw']:
+        k, m = bytes.fromhex(k), bytes.fromhex(m)
+        import hmac
+        from Cryptodome.Hash import HMAC, SHA256
+        out['raw'].append([hmac.new(k, m, hashlib.sha256).hexdigest(), HMAC.new(k, m, digestmod=SHA256).hexdigest(),
+                           hashlib.sha256(m).hexdigest()])
+    rec = PK.Recorder(_sign_signer(case))
+    name = [bytes.fromhex(c) for c in case['name']]
+    try:
+        if case['pkt'] == 'data':
+            m = case['meta']
+            mi = None if m is None else enc.MetaInfo(
+                content_type=m['content_type'], freshness_period=m['freshness_period'],
+                final_block_id=None if m['final_block_id'] is None else bytes.fromhex(m['final_block_id']))
+            content = None if case['content'] is None else PK.payload(case, case['content'])
+            wire = bytes(enc.make_data(name, mi, content, signer=rec))
+            out['final_name'] = []
+        else:
+            p = case['param']
+            ip = enc.InterestParam(can_be_prefix=p['can_be_prefix'], must_be_fresh=p['must_be_fresh'], nonce=p['nonce'],
+                                   lifetime=p['lifetime'], hop_limit=p['hop_limit'],
+                                   forwarding_hint=[[bytes.fromhex(c) for c in n] for n in p['forwarding_hint']])
+            ap = None if case['app'] is None else PK.payload(case, case['app'])
+            ret, fn = enc.make_interest(name, ip, ap, signer=rec, need_final_name=True)
+            wire = bytes(ret)
+            out['final_name'] = [bytes(c).hex() for c in fn]
+        out['made'] = ['ok', wire.hex()]
+    except Exception as e:   # noqa
+        out['made'] = ['err', PK.exc_name(e)]
+        return out
+    out['covered'] = None if rec.covered is None else b''.join(rec.covered).hex()
+    out['sig'] = None if rec.sig is None else rec.sig.hex()
+    out['reserved'] = rec.reserved
+    si = rec.si
+    out['tn'] = None if si is None or si.signature_time is None else [si.signature_time, si.signature_nonce]
+    ckey, ckn = bytes.fromhex(case['chk'][0]), [bytes.fromhex(c) for c in case['chk'][1]]
+    out['parsed'] = _slim(PK.parse_packet(case['pkt'], wire))
+    out['spec'] = _hexspec(spec_portions(case['pkt'], wire))
+    out['verdicts'] = _verdicts(case['pkt'], wire, ckey, ckn)
+    seen = set()
+    for t in case['tamper']:
+        w2 = _apply_tamper(wire, t)
+        if w2 == wire or w2 in seen:
+            continue
+        seen.add(w2)
+        out['copies'].append({'wire': w2.hex(), 'parsed': _slim(PK.parse_packet(case['pkt'], w2)),
+                              'spec': _hexspec(spec_portions(case['pkt'], w2)), 'verdicts': _verdicts(case['pkt'], w2, ckey, ckn)})
+    return out
+
+
+def _sign_line(case, impl):
+    q = []
+    for k, m in case['raw']:
+        q.append(f'hmac {T.hx(bytes.fromhex(k))} {T.hx(bytes.fromhex(m))}')
+        q.append(f'sha {T.hx(bytes.fromhex(m))}')
+    sg = case['sg']
+    if sg[0] == 'digest':
+        tn = impl.get('tn')
+        if sg[1] and impl['made'][0] == 'ok' and tn is None:
+            return None
+        # (a for_interest signer of a call that failed: the time / nonce it drew are not observable, nor needed)
+        spec = 'dg' if not sg[1] else ('dg:0:0' if tn is None else f'dg:{tn[0]}:{tn[1]}')
+    else:
+        spec = f"hm:{T.hx(bytes.fromhex(sg[1]))}:{','.join(T.hx(bytes.fromhex(c)) for c in sg[2]) or '.'}"
+    base = PK.model_make_line(dict(case, signer=['none']), {'siginfo': '_'}).split()
+    if case['pkt'] == 'data':
+        q.append(f'sdata {spec} {base[2]} {base[3]} {base[4]}')
+    else:
+        q.append(f'sint {spec} {base[2]} {base[3]} {base[4]}')
+    if impl['made'][0] == 'ok':
+        ckey, ckn = bytes.fromhex(case['chk'][0]), [bytes.fromhex(c) for c in case['chk'][1]]
+        for w in [impl['made'][1]] + [c['wire'] for c in impl['copies']]:
+            q.append(_chk_q(case['pkt'], bytes.fromhex(w), ckey, ckn))
+    return 'C02 ' + ' ;; '.join(q)
+
+
+def _sign_model_obs(answer, case, impl):
+    parts = answer.split(' ;; ')
+    nr = len(case['raw'])
+    o = {'raw': [[parts[2 * i], parts[2 * i], parts[2 * i + 1]] for i in range(nr)]}
+    m = parts[2 * nr].split()
+    if m[0] != 'ok':
+        o['made'] = ['err', m[1]] if m[0] == 'err' else [answer]
+        return o
+    d = dict(x.split('=', 1) for x in m[1:])
+    o['made'] = ['ok', '' if d['W'] == '-' else d['W']]
+    o['covered'] = ''.join(PK._hexlist(d['C']))
+    o['final_name'] = PK._hexlist(d['N']) if case['pkt'] == 'interest' else []
+    o['verdicts'] = [_model_verdict(p) for p in parts[2 * nr + 1:]]
+    return o
+
+
+def _sign_impl_obs(impl):
+    o = {'raw': impl['raw'], 'made': impl['made']}
+    if impl['made'][0] == 'ok':
+        o['covered'] = impl['covered']
+        o['final_name'] = impl['final_name']
+        o['verdicts'] = [impl['verdicts']] + [c['verdicts'] for c in impl['copies']]
+    return o
+
+
+def _sign_oracle(case, impl):
+    """from the property statement: signer input = parser report = specified signed portion; the matching verifier accepts;
+    a copy accepted by that verifier has the signed packet's portion and signature value; the parameters-digest rule"""
+    if impl['made'][0] != 'ok':
+        return None
+    p, spec, v = impl['parsed'], impl['spec'], impl['verdicts']
+    if p['res'] != 'ok' or spec is None or v == 'unparsable':
+        return 'made packet does not parse'
+    if impl['covered'] is None:
+        return 'the signer was not asked to sign'
+    if impl['covered'] != spec[0]:
+        return 'bytes handed to the signer differ from the specified signed portion of the final wire'
+    if ''.join(p['SC']) != spec[0]:
+        return 'bytes reported by the parser differ from the specified signed portion'
+    if p['SV'] != spec[1] or p['SV'] != impl['sig']:
+        return 'signature value reported by the parser differs from what the signer wrote'
+    bad = [x for x in v[1:] if isinstance(x, str)]
+    if bad:
+        return f'a checker raised on the packet its signer produced ({bad[0]})'
+    sg = case['sg']
+    matching = _sign_matching(case)
+    if sg[0] == 'digest':
+        if not v[1]:
+            return 'sha256_digest_checker does not accept the packet DigestSha256Signer produced'
+    else:
+        if matching[0] and not v[2]:
+            return 'verify_hmac with the signing key does not accept the packet HmacSha256Signer produced'
+        if matching[1] and not v[3]:
+            return 'HmacChecker.from_key (signing key, a prefix of the KeyLocator name) does not accept the packet HmacSha256Signer produced'
+        if matching[1] and not v[4]:
+            return 'union_checker(sha256_digest_checker, HmacChecker for the signing key) does not accept the packet HmacSha256Signer produced'
+    if case['pkt'] == 'interest':
+        r = _digest_rule(None, spec, v[5])
+        if r:
+            return 'made packet: ' + r
+        if v[5] is not True:
+            return "the library's own signed Interest fails its parameters-digest check"
+    for c in impl['copies']:
+        cp, cs, cv = c['parsed'], c['spec'], c['verdicts']
+        if cp['res'] != 'ok' or cv == 'unparsable':
+            continue
+        if case['pkt'] == 'interest' and cs is not None and not isinstance(cv[5], str):
+            r = _digest_rule(None, cs, cv[5])
+            if r:
+                return 'tampered copy: ' + r
+        if sg[0] == 'digest':
+            accepted = cv[0] == '0' and cv[1] is True       # (see DESIGN.md: the digest checker judges DigestSha256 packets only)
+        else:
+            accepted = (matching[0] and cv[2] is True) or (matching[1] and (cv[3] is True or (cv[0] == '4' and cv[4] is True)))
+        if accepted:
+            if ''.join(cp['SC']) != spec[0] or cp['SV'] != spec[1]:
+                return 'verifier accepted a copy although the bytes it checked or the signature value differ from the signed packet'
+            if cs is not None and cs[0] is not None and (cs[0] != spec[0] or cs[1] != spec[1]):
+                return 'verifier accepted a copy whose signed portion or signature value differs from the signed packet'
+    return None
+
+
+def _sign_matching(case):
+    """(verify_hmac is the matching verifier, HmacChecker.from_key is the matching verifier) for an HMAC-signed packet:
+    the checker holds the signing key; its key name is a prefix of the signer's non-empty KeyLocator name"""
+    sg = case['sg']
+    if sg[0] != 'hmac':
+        return (False, False)
+    same = case['chk'][0] == sg[1]
+    kl, kn = sg[2], case['chk'][1]
+    return (same, same and len(kl) > 0 and kl[:len(kn)] == kn)
+
+
+def _sign_tags(case, impl):
+    sg = case['sg']
+    t = ['sign:' + case['pkt'], 'sign-signer:' + sg[0] + (':for_interest' if sg[0] == 'digest' and sg[1] else '')]
+    if sg[0] == 'hmac':
+        n = len(sg[1]) // 2
+        t.append('hmac-key-len:' + (str(n) if n in KEY_LENS else 'other'))
+        m = _sign_matching(case)
+        t.append('hmac-checker:' + ('matching' if m[1] else 'same-key-other-name' if m[0] else 'other-key'))
+    if impl['made'][0] == 'ok' and impl['verdicts'] != 'unparsable':
+        t.append('sign-own-verdicts:' + ''.join('1' if x is True else '0' if x is False else 'x' for x in impl['verdicts'][1:]))
+    for c in impl['copies']:
+        if c['verdicts'] != 'unparsable':
+            t.append('sign-copy-verdicts:' + ''.join('1' if x is True else '0' if x is False else 'x' for x in c['verdicts'][1:]))
+    return t
